@@ -13,6 +13,8 @@
 (*   rawok       stored form = the uncompressed form                        *)
 (*   eq, ty      deserialize returned an equal value / of exactly the same  *)
 (*               type                                                       *)
+(*   eq2         after the caller changed the object it got, deserialising   *)
+(*               the same stored form again still returns the stored value   *)
 (***************************************************************************)
 EXTENDS Naturals, Sequences, FiniteSets
 
@@ -26,6 +28,7 @@ SMonClauses(m, ev) ==
      <<"C15-flags-within-16-bits", ev.raised = "none" => ev.flags < 65536>>,
      <<"C15-round-trip-returns-an-equal-value", ev.raised = "none" => ev.eq>>,
      <<"C15-round-trip-returns-exactly-the-same-type", ev.raised = "none" => ev.ty>>,
+     <<"C15-reading-the-stored-form-again-returns-the-stored-value", (ev.raised = "none" /\ ev.eq) => ev.eq2>>,
      <<"C15-marked-compressed-exactly-when-the-compressed-form-is-stored",
            (ev.raised = "none" /\ ev.compressed_serde) => (IF HasBit(ev.flags, FlagCompressed) THEN ev.decok ELSE ev.rawok)>>,
      <<"C15-plain-serde-never-sets-the-compressed-flag",
